@@ -478,7 +478,7 @@ Abort ==
 
 \* Connection.close(): refused while joined (nothing changes)
 Close ==
-  /\ App /\ "close" \in Ops /\ sps = <<>>
+  /\ App /\ "close" \in Ops /\ (sps = <<>> \/ cn.joined)
   /\ cn' = IF cn.joined THEN cn ELSE [cn EXCEPT !.opened = FALSE]
   /\ UNCHANGED <<ob, tmp, sps, hist, cm>> /\ SetObs({})
 
